@@ -13,6 +13,127 @@ from rules.common import BILLING_MODEL, CALTRACK_WRAPPER, DAILY_MODEL, HOURLY_DA
 ROW_CHANGERS = ("drop_duplicates", "groupby", "resample", "dropna", "head", "tail", "sample", "query", "drop", "merge", "asfreq", "shift", "tz_convert", "tz_localize")
 
 
+def _caltrack_predict_outcome(chk, cw, cp):
+    """Interpret CalTRACKHourlyModel.predict on frames that only know which index they carry."""
+    from engine.absint import AbsObj, ModuleEnv, Opaque
+    from engine.pyinterp import Function, Interp, InterpRaised, Stub, StubCall, Unsupported
+    VALUE_ONLY = {"rename", "copy", "astype", "assign", "fillna", "round", "infer_objects"}
+
+    class IIndex(Stub):
+        def __init__(self, ident):
+            self.ident = ident
+            self.month = Opaque("index.month")
+
+        def __getitem__(self, k):
+            return IIndex(f"{self.ident}[...]")
+
+        def _abs_len(self):
+            return 3
+
+    class ISeries(Stub):
+        def __init__(self, ident):
+            self.ident = ident
+            self.index = IIndex(ident)
+
+        def isna(self): return self
+        isnull = isna
+        notna = isna
+        def all(self): return True      # no usage supplied: the uncertainty block is not the subject here
+        def any(self): return False
+
+        def __getattr__(self, name):
+            if name.startswith("_"):
+                raise AttributeError(name)
+
+            def op(*a, **k):
+                if name == "reindex" and a and isinstance(a[0], IIndex):
+                    return ISeries(a[0].ident)
+                return ISeries(self.ident if name in VALUE_ONLY else f"{self.ident}.{name}()")
+            return op
+
+    class IFrame(Stub):
+        _settable = True
+
+        def __init__(self, ident, cols, ops=()):
+            self.ident, self.cols, self.ops = ident, list(cols), tuple(ops)
+
+        @property
+        def index(self): return IIndex(self.ident)
+
+        @property
+        def columns(self): return list(self.cols)
+
+        def __getitem__(self, k):
+            if isinstance(k, str):
+                if k not in self.cols:
+                    raise InterpRaised("KeyError", k)
+                return ISeries(self.ident)
+            if isinstance(k, list) and all(isinstance(x, str) for x in k):
+                miss = [x for x in k if x not in self.cols]
+                if miss:
+                    raise InterpRaised("KeyError", str(miss))
+                return IFrame(self.ident, k, self.ops)
+            return IFrame(f"{self.ident}[rows selected]", self.cols, self.ops + ("row-selection",))
+
+        def __setitem__(self, k, v):
+            if not isinstance(k, str):
+                raise Unsupported("frame[...] = ... with a non-column key")
+            if k not in self.cols:
+                self.cols.append(k)
+
+        def rename(self, columns=None, **k):
+            if not isinstance(columns, dict) or k:
+                raise Unsupported("rename() other than rename(columns={...})")
+            return IFrame(self.ident, [columns.get(c, c) for c in self.cols], self.ops)
+
+        def __getattr__(self, name):
+            if name.startswith("_") or name in ("loc", "iloc", "values", "T", "shape", "empty"):
+                raise AttributeError(name)
+
+            def op(*a, **k):
+                if name == "reindex" and a and isinstance(a[0], IIndex):
+                    return IFrame(a[0].ident, self.cols, self.ops)
+                return IFrame(self.ident, self.cols, self.ops if name in VALUE_ONLY else self.ops + (name,))
+            return op
+
+    class PDi(Stub):
+        @staticmethod
+        def concat(objs, axis=0, **k):
+            objs = [o for o in objs if o is not None]
+            if not all(isinstance(o, IFrame) for o in objs):
+                raise Unsupported("pd.concat of something that is not a frame")
+            cols = [c for o in objs for c in o.cols]
+            ops = tuple(x for o in objs for x in o.ops)
+            if axis in (1, "columns"):
+                ids = {o.ident for o in objs}
+                how = k.get("join", "outer")
+                ident = objs[0].ident if len(ids) == 1 else f"{how}({', '.join(sorted(ids))})"
+                return IFrame(ident, cols, ops)
+            return IFrame("rows-of(" + ", ".join(o.ident for o in objs) + ")", cols, ops + ("row-wise concat",))
+
+    class NPi(Stub):
+        nan = float("nan")
+    seen = {}
+
+    def model_predict(index, temps, *a, **k):
+        seen["predicted_on"] = getattr(index, "ident", repr(index)[:40])
+        seen["temperature_from"] = getattr(temps, "ident", repr(temps)[:40])
+        return AbsObj({"CalTRACKHourlyModelResults"}, result=IFrame(seen["predicted_on"], ["predicted_usage"]))
+    data = AbsObj({"HourlyReportingData"}, df=IFrame("data.df.index", ["temperature", "observed"]), warnings=[], disqualification=[])
+    me = AbsObj({cw.name}, is_fit=True, is_fitted=True, model=AbsObj({"Model"}, predict=StubCall(model_predict)), _autocorr_unc_vars={}, alpha=0.1, warnings=[], disqualification=[])
+    it = Interp(step_limit=50_000)
+    env = ModuleEnv(chk.repo, cp.module, it, {"pd": PDi(), "pandas": PDi(), "np": NPi(), "numpy": NPi()})
+    try:
+        res = Function(cp.node, env, it)(me, data)
+    except InterpRaised as e:
+        return {"raises": e.exc_name}
+    except Unsupported as e:
+        raise AnalysisError(f"{cp.key}: uses an operation outside the modelled subset: {e}")
+    if not isinstance(res, IFrame):
+        return {"returns": repr(res)[:60]}
+    return {"index": res.ident, "row_ops": list(res.ops), "columns": list(res.cols), "predicted_on": seen.get("predicted_on"), "temperature_from": seen.get("temperature_from")}
+
+
 def run(chk):
     chk.explanation = (
         "Index provenance of the frame returned by predict(): hourly — every return is `X.reindex(I)` with I's only reaching definition "
@@ -136,8 +257,10 @@ def run(chk):
     # ------------------------------------------------------------------ R06.4
     cw = chk.repo.cls(*CALTRACK_WRAPPER)
     cp = method(chk, cw, "predict")
-    t = unparse(cp.node)
-    r4.require("prediction_index = reporting_data.df.index" in t and "pd.concat([reporting_data.df, model_prediction.result], axis=1)" in t, f"{cp.key}|column-wise-on-own-index", cp.where(),
-               "CalTRACK predict must predict over reporting_data.df.index and join the result column-wise onto reporting_data.df")
+    # interpreted on index-provenance frames: which index does the returned frame carry, and what happened to its rows on the way
+    out = _caltrack_predict_outcome(chk, cw, cp)
+    ok = out.get("index") == "data.df.index" and not out.get("row_ops") and out.get("predicted_on") == "data.df.index"
+    r4.require(ok, f"{cp.key}|column-wise-on-own-index", cp.where(),
+               f"CalTRACK predict must predict over reporting_data.df.index and join the result column-wise onto reporting_data.df; interpreted: {out}", sample=out)
     sp = chk.repo.func("opendsm.eemeter.models.hourly_caltrack.segmentation", "SegmentedModel.predict")
     r4.require(".reindex(prediction_index)" in unparse(sp.node), f"{sp.key}|reindex(prediction_index)", sp.where(), "segment predictions must be reindexed onto the requested prediction index")
